@@ -215,7 +215,12 @@ func c12Sequence(c *core.Ctx, k c12Cfg, length int) {
 	rnd.MaxChunk = []int{0, 0, 0, 1, 7, 8, 16}[c.Rng.Intn(7)] // a random source that serves short reads is still a random source
 	c.Observe("random_source_read_sizes", fmt.Sprintf("max %d bytes per Read (0 = whole buffer)", rnd.MaxChunk))
 	saml.RandReader = rnd
-	sp, _ := c12SP(k)
+	cfg, _ := c12SP(k)
+	if c12LiveSP == nil { // one SP object per process, reconfigured for every sequence
+		c12LiveSP = &saml.ServiceProvider{}
+	}
+	sp := c12LiveSP
+	reconfigure(sp, cfg)
 	// the library IdP, with the SP registered through its own published metadata
 	w := so.NewIDPWorld()
 	ssoU := mustURL(k.sso)
@@ -614,3 +619,5 @@ func boolInt(b bool) int {
 	}
 	return 0
 }
+
+var c12LiveSP *saml.ServiceProvider
